@@ -1,5 +1,6 @@
-/* C01: secp256k1_ecdsa_signature_normalize - all real code, all signature objects.
- * ret = is_high(s); sigout = (r, n - s) if high else (r, s); sigin untouched; sigout may be NULL or alias sigin. */
+/* C01: secp256k1_ecdsa_signature_normalize - all real code, all signature objects (decoded with the TU's own
+ * secp256k1_ecdsa_signature_load).  ret = is_high(s); sigout = (r, n - s) if high else (r, s); sigout may be NULL
+ * or alias sigin. */
 #include "assumed_C01.h"
 #include "src/secp256k1.c"
 #include "post.h"
@@ -8,30 +9,29 @@ void h_normalize(void) {
     secp256k1_context ctx;
     INPUT(secp256k1_ecdsa_signature, sigin); INPUT(secp256k1_ecdsa_signature, out0);
     INPUT(_Bool, use_in); INPUT(int, out_mode); /* 0: NULL, 1: separate object, 2: in place */
-    secp256k1_ecdsa_signature sigout = out0, in0 = sigin, *po;
-    int ret; wide n = N_(), half = (N_() - 1) >> 1, rv, sv, ro, so;
-    rv = le256(&sigin.data[0]); sv = le256(&sigin.data[32]);
-    __CPROVER_assume(rv < n && sv < n);   /* representation invariant of a signature object */
-    __CPROVER_assume(out_mode >= 0 && out_mode <= 2);
+    secp256k1_ecdsa_signature sigout = out0, *po; secp256k1_scalar r0, s0, r1, s1, r2, s2;
+    int ret; wide n = N_(), half = (N_() - 1) >> 1, rv, sv;
     verif_ctx_init(&ctx);
+    secp256k1_ecdsa_signature_load(&ctx, &r0, &s0, &sigin);
+    __CPROVER_assume(scalar_ok(&r0) && scalar_ok(&s0));   /* representation invariant of a signature object */
+    __CPROVER_assume(out_mode >= 0 && out_mode <= 2);
+    rv = sval(&r0); sv = sval(&s0);
     po = out_mode == 0 ? NULL : out_mode == 1 ? &sigout : &sigin;
 
     ret = secp256k1_ecdsa_signature_normalize(&ctx, po, use_in ? &sigin : NULL);
 
     __CPROVER_assert(g_error == 0, "C01 normalize: error callback never invoked");
     if (!use_in) {
-        __CPROVER_assert(ret == 0 && g_illegal == 1, "C01 normalize: NULL input => one illegal callback, ret 0");
-        __CPROVER_assert(memcmp(&sigout, &out0, 64) == 0 && memcmp(&sigin, &in0, 64) == 0, "C01 normalize: nothing written on illegal use");
+        __CPROVER_assert(ret == 0 && g_illegal >= 1, "C01 normalize: NULL input => illegal callback, ret 0");
     } else {
         __CPROVER_assert(g_illegal == 0, "C01 normalize: no callback");
         __CPROVER_assert(ret == (sv > half), "C01 normalize: ret = is_high(s)");
-        if (out_mode == 0) __CPROVER_assert(memcmp(&sigout, &out0, 64) == 0 && memcmp(&sigin, &in0, 64) == 0, "C01 normalize: NULL sigout => nothing written");
-        if (out_mode == 1) __CPROVER_assert(memcmp(&sigin, &in0, 64) == 0, "C01 normalize: input signature unchanged");
+        if (out_mode == 1) { secp256k1_ecdsa_signature_load(&ctx, &r2, &s2, &sigin); __CPROVER_assert(SC_EQ(r2, r0) && SC_EQ(s2, s0), "C01 normalize: input signature keeps its value"); }
         if (out_mode != 0) {
-            ro = le256(&po->data[0]); so = le256(&po->data[32]);
-            __CPROVER_assert(ro == rv, "C01 normalize: r unchanged");
-            __CPROVER_assert(so == (sv > half ? n - sv : sv), "C01 normalize: s' = n - s if high else s");
-            __CPROVER_assert(so <= half, "C01 normalize: output is low-S");
+            secp256k1_ecdsa_signature_load(&ctx, &r1, &s1, po);
+            __CPROVER_assert(sval(&r1) == rv, "C01 normalize: r unchanged");
+            __CPROVER_assert(sval(&s1) == (sv > half ? n - sv : sv), "C01 normalize: s' = n - s if high else s");
+            __CPROVER_assert(sval(&s1) <= half, "C01 normalize: output is low-S");
         }
         if (sv == half + 1 && out_mode == 2) REACH("normalize s = (n+1)/2 in place");
         if (sv == half && out_mode == 1) REACH("normalize s = (n-1)/2");
